@@ -4,8 +4,10 @@ import (
 	"crypto/sha256"
 	"encoding/hex"
 	"fmt"
+	"os"
 	"runtime"
 	"sort"
+	"strconv"
 	"strings"
 	"sync"
 	"sync/atomic"
@@ -298,6 +300,11 @@ func RunC12(rt *Runtime, sc *Scenario) RunResult {
 		res.Counters["runs_free"]++
 	} else {
 		res.Counters["runs_baton"]++
+		for _, t := range trace {
+			if strings.HasPrefix(t, "timeout:") {
+				res.Counters["baton_timeouts"]++
+			}
+		}
 		res.Counters["context_switches"] += int64(len(schedule))
 		res.Counters["yields"] += int64(len(trace))
 	}
@@ -381,6 +388,13 @@ func RunC12(rt *Runtime, sc *Scenario) RunResult {
 	sort.Strings(res.Distinct)
 	res.Sample = map[string]any{"run": sc.Run, "mode": plan.Mode, "clients": fmts, "gomaxprocs": gmp, "switch_p": plan.SwitchP, "guided": plan.Guided, "switches": len(schedule), "yields": len(trace), "features": w.Features}
 	return res
+}
+
+func batonTimeoutMs() int {
+	if v, err := strconv.Atoi(os.Getenv("VERIF_BATON_TIMEOUT_MS")); err == nil && v > 0 {
+		return v
+	}
+	return 2000
 }
 
 // runFree: start barrier, true parallelism, PRNG-drawn start offsets. This is
@@ -487,7 +501,7 @@ func runBaton(clients []*c12client, plan *C12Plan) (schedule []Switch, trace []s
 	parked[cur] = false
 	b.release(cur)
 	for remaining > 0 {
-		kind, id, ok, timedOut := b.waitTimeout(2000)
+		kind, id, ok, timedOut := b.waitTimeout(batonTimeoutMs())
 		if !ok {
 			return schedule, trace, "baton: control pipe closed"
 		}
